@@ -60,6 +60,16 @@ func (c *vrConn) ds() string {
 	return "h:" + t + ":" + strings.Join(h, ".")
 }
 
+// vrMapMu guards vrPoll.conns and vpRecPoll.ids of the real-loop scenarios (written by the scenario goroutine in newConn, read by the
+// loop's goroutine in handle and in the recording Poll wrapper)
+var vrMapMu sync.Mutex
+
+func (v *vrPoll) connOf(op *FDOperator) *vrConn {
+	vrMapMu.Lock()
+	defer vrMapMu.Unlock()
+	return v.conns[op]
+}
+
 type vrPoll struct {
 	mu       sync.Mutex // held while a batch is handled and while the harness acts on a peer
 	p        *defaultPoll
@@ -110,7 +120,7 @@ func (v *vrPoll) handle(events []epollevent) bool {
 				e.ds, e.wake = "wake:1:0:0", strconv.FormatUint(1<<56, 10)
 			}
 			atomic.AddInt64(&v.wakes, 1)
-		} else if c := v.conns[op]; c != nil {
+		} else if c := v.connOf(op); c != nil {
 			e.id, e.kind, e.ds, e.cap = c.id, "HIO", c.ds(), c.capv
 			if c.out > 0 {
 				e.ol = c.out
@@ -194,7 +204,7 @@ func (v *vrPoll) handle(events []epollevent) bool {
 			reg = append(reg, fmt.Sprintf("%d:%d", e.id, r))
 		}
 		g := 0
-		if c := v.conns[ops[i]]; c != nil && c.d.b >= 0 {
+		if c := v.connOf(ops[i]); c != nil && c.d.b >= 0 {
 			if sent[c.id] > 0 && c.tcp {
 				vpSettleBytes(c.d.b, c.d.prefill+sent[c.id])
 			}
@@ -281,9 +291,12 @@ func (v *vrPoll) newConn(id int, tcp bool, capv int) (*vrConn, error) {
 	op.OnHup = func(p Poll) error { rec.add(id, "H", 0, false, tok()); c.hups++; return nil }
 	_ = e
 	op.poll = v.rp
+	// the loop's goroutine reads both maps while it handles a batch (some callers hold v.mu, some do not: own lock)
+	vrMapMu.Lock()
 	v.rp.ids[op] = id
 	c.op = op
 	v.conns[op] = c
+	vrMapMu.Unlock()
 	return c, nil
 }
 
